@@ -45,9 +45,11 @@ def status_exchange(io, status_obj, raw_json=None, answer_ping=True):
     return seen
 
 
-def login_offline(io, pv, threshold=None, codec=None, name_out=None):
-    """Expect login start; optionally enable compression; send login success.
-    The handshake must already have been read.  Returns the login name."""
+def login_offline(io, pv, threshold=None, codec=None, name_out=None,
+                  encrypted=False):
+    """Expect login start; optionally switch on encryption and compression;
+    send login success.  The handshake must already have been read.  Returns
+    the login name."""
     codec = codec or codec_for(pv)
     f = io.recv_frame()
     if f is None:
@@ -56,6 +58,8 @@ def login_offline(io, pv, threshold=None, codec=None, name_out=None):
     name, vals = codec.decode('login', pid, payload)
     if name != 'login_start':
         raise ProtocolViolation('expected login start, got %s' % name)
+    if encrypted:
+        encryption_exchange(io, codec)
     if threshold is not None:
         cid, cp = codec.encode('set_compression', {'threshold': threshold})
         io.send_frame(cid, cp)
